@@ -39,7 +39,7 @@ def glob_pool(rng, nodes):
 def _job(args):
     seed, n = args
     rng = random.Random(seed)
-    from pytestarch.utils.partial_match_to_regex_converter import convert_partial_match_to_regex as conv
+    conv = rules.partial_match_converter()
     cases, metas = [], []
     glob_cases = []
     while len(cases) < n:
@@ -64,11 +64,12 @@ def _job(args):
                 for imp in (True, False):
                     for exc in (False, True):
                         rside = ("regex", rxs)
+                        part = {"_partial": {"subj": pats}} if kind == "glob_subj" else {}
                         if kind == "regex_obj":
                             compact = dict(subj=other, verbs=[v], imp=imp, exc=exc, obj=rside)
                             expanded = dict(subj=other, verbs=[v], imp=imp, exc=exc, obj=("named", matches))
                         else:
-                            compact = dict(subj=rside, verbs=[v], imp=imp, exc=exc, obj=other)
+                            compact = dict(subj=rside, verbs=[v], imp=imp, exc=exc, obj=other, **part)
                             expanded = dict(subj=("named", matches), verbs=[v], imp=imp, exc=exc, obj=other)
                         i = len(specs)
                         specs += [compact, expanded]
@@ -149,29 +150,19 @@ def _job(args):
 
 
 def eval_multi_regex(cases):
-    """eval_cases, but a 'regex' side may carry several patterns (have_name_containing
-    builds one regex filter per partial name): build those rules by hand."""
-    Rule = rules.impl()[0]
+    """eval_cases, but a 'regex' side may carry several patterns.  Several regex filters on one side can only be produced by
+    have_name_containing (one regex filter per partial name): the rule object is built through that public call with the
+    partial names the patterns were converted from (spec['_partial'][side]); the model is handed the converted regexes."""
     orig_build = rules.build_rule
 
     def build(spec):
-        multi = [k for k in ("subj", "obj") if spec.get(k) is not None and spec[k][0] == "regex" and len(spec[k][1]) > 1]
-        if not multi:
+        partial = spec.get("_partial") or {}
+        if not partial:
             return orig_build(spec)
-        # several regex filters on one side can only be produced by have_name_containing;
-        # go through the same internal list the API fills
-        from pytestarch.eval_structure.evaluable_architecture import ModuleNameRegexFilter
-        s2 = dict(spec)
-        for k in multi:
-            s2[k] = ("regex", spec[k][1][:1])
-        r = orig_build(s2)
-        for k in multi:
-            fl = [ModuleNameRegexFilter(name=p) for p in spec[k][1]]
-            if k == "subj":
-                r._configuration.modules_to_check = fl
-            else:
-                r._configuration.modules_to_check_against = fl
-        return r
+        s2 = {k: v for k, v in spec.items() if k != "_partial"}
+        for k, pats in partial.items():
+            s2[k] = ("containing", list(pats))
+        return orig_build(s2)
     rules.build_rule = build
     try:
         return rules.eval_cases(cases)
